@@ -314,11 +314,20 @@ func (c *Ctx) checkCtorGuards(rule string, fn *ssa.Function, want []guardSpec) {
 		if !g.onTrue {
 			rejIdx, accIdx = 1, 0
 		}
-		// reject edge leads only to error returns with nil buckets
-		rejOK := false
-		for _, r := range errRets {
-			if edgeDominates(g.b, rejIdx, r.Block()) && isNilConst(r.Results[0]) {
-				rejOK = true
+		// reject edge leads only to error returns with nil buckets (path-sensitive: the error may be
+		// joined with other guards' errors and tested after the join, as an inlined helper does)
+		rejRets := returnsFromEdge(g.b, rejIdx)
+		rejOK := len(rejRets) > 0
+		for _, ra := range rejRets {
+			if len(ra.ret.Results) != 2 {
+				rejOK = false
+				continue
+			}
+			for _, tuple := range resultTuples(ra.ret) {
+				b0, e1 := ra.st.resolve(tuple[0].Val), ra.st.resolve(tuple[1].Val)
+				if !isNilConst(b0) || isNilConst(e1) {
+					rejOK = false
+				}
 			}
 		}
 		accOK := len(okRets) > 0
@@ -337,23 +346,21 @@ func (c *Ctx) checkCtorGuards(rule string, fn *ssa.Function, want []guardSpec) {
 		}
 	}
 	// no other rejecting condition: every error return is dominated by the reject edge of a wanted guard
-	for _, r := range errRets {
-		ok := false
-		for _, g := range guards {
-			isWanted := false
-			for _, w := range want {
-				if g.spec == w {
-					isWanted = true
+	rejectEdges := map[*ssa.BasicBlock]int{}
+	for _, g := range guards {
+		for _, w := range want {
+			if g.spec == w {
+				idx := 0
+				if !g.onTrue {
+					idx = 1
 				}
-			}
-			idx := 0
-			if !g.onTrue {
-				idx = 1
-			}
-			if isWanted && edgeDominates(g.b, idx, r.Block()) {
-				ok = true
+				rejectEdges[g.b] = idx
 			}
 		}
+	}
+	for _, r := range errRets {
+		// with every documented reject edge removed the error return must be unreachable
+		ok := entryInstr(fn) != nil && !reachThreaded(entryInstr(fn), r, rejectEdges, nil)
 		if !ok {
 			allOK = false
 			c.bad(rule, key, r.Pos(), "an error is returned under a condition other than the documented guards: valid arguments are rejected", c.describe(r))
@@ -1015,21 +1022,36 @@ func (c *Ctx) checkBucketsEqual(rule string) {
 	}
 }
 
-// edgeReturnsFalse: the (true|false) successor of the If in b returns the constant false.
+// edgeReturnsFalse: every return that is reachable through the (true|false) edge of the If in b
+// yields the constant false there (path-sensitive: a result joined in a phi, e.g. `return ok && eq(..)`
+// or an inlined helper's result, is resolved along the path).
 func (c *Ctx) edgeReturnsFalse(b *ssa.BasicBlock, onTrue bool) bool {
 	idx := 1
 	if onTrue {
 		idx = 0
 	}
-	s := b.Succs[idx]
-	for _, in := range s.Instrs {
-		if r, ok := in.(*ssa.Return); ok && len(r.Results) == 1 {
-			if v, isB := constBool(r.Results[0]); isB && !v {
-				return true
+	rets := returnsFromEdge(b, idx)
+	if len(rets) == 0 {
+		return false
+	}
+	for _, ra := range rets {
+		if len(ra.ret.Results) != 1 {
+			return false
+		}
+		ok := false
+		for _, va := range resultValues(ra.ret, 0) {
+			v := ra.st.resolve(va.Val)
+			if k, isB := constBool(v); isB && !k {
+				ok = true
+			} else {
+				return false
 			}
 		}
+		if !ok {
+			return false
+		}
 	}
-	return false
+	return true
 }
 
 // coversAll: idx is the induction variable of `for i := 0; i < len(s); i++` (phi of 0 and i+1,
